@@ -6,6 +6,24 @@ use sm9_core::*;
 use std::io::{BufRead, Write};
 use std::panic;
 
+/// RNG that replays a caller-supplied byte stream cyclically and panics once more than `limit` bytes were requested
+/// (a watchdog: a sampling loop that never accepts must show up as a failed call, not as a hang of the driver).
+struct StreamRng { data: Vec<u8>, pos: usize, used: u64, limit: u64 }
+impl rand::RngCore for StreamRng {
+    fn next_u32(&mut self) -> u32 { let mut b = [0u8; 4]; self.fill_bytes(&mut b); u32::from_le_bytes(b) }
+    fn next_u64(&mut self) -> u64 { let mut b = [0u8; 8]; self.fill_bytes(&mut b); u64::from_le_bytes(b) }
+    fn fill_bytes(&mut self, dest: &mut [u8]) {
+        for d in dest.iter_mut() {
+            self.used += 1;
+            if self.used > self.limit { panic!("rng watchdog: more than {} random bytes requested by one call", self.limit); }
+            *d = if self.data.is_empty() { 0 } else { self.data[self.pos % self.data.len()] };
+            self.pos += 1;
+        }
+    }
+    fn try_fill_bytes(&mut self, dest: &mut [u8]) -> Result<(), rand::Error> { self.fill_bytes(dest); Ok(()) }
+}
+fn stream(a: &[u8]) -> StreamRng { StreamRng { data: a.to_vec(), pos: 0, used: 0, limit: 1 << 16 } }
+
 fn hexd(s: &str) -> Vec<u8> {
     if s == "-" {
         return vec![];
@@ -89,6 +107,8 @@ fn public(name: &str, a: &[Vec<u8>]) -> Option<Vec<Vec<u8>>> {
             vec![(g * h).to_slice().to_vec(), (h * g).to_slice().to_vec(), (g * Gt::one()).to_slice().to_vec(), (Gt::one() * g).to_slice().to_vec(),
                  g.pow(k).to_slice().to_vec(), match gi { Some(x) => x.to_slice().to_vec(), None => vec![] },
                  match gi { Some(x) => (g * x).to_slice().to_vec(), None => vec![] }, vec![(g == h) as u8], Gt::one().to_slice().to_vec(), g.to_slice().to_vec(), h.to_slice().to_vec()] }
+        // random elements from an exact RNG byte stream: [canonical encoding(s), bytes consumed]
+        "fr_random" => { let mut r = stream(&a[0]); let x = Fr::random(&mut r); vec![x.to_slice().to_vec(), r.used.to_be_bytes().to_vec(), vec![x.is_zero() as u8], vec![(Fr::from_slice(&x.to_slice()) == Some(x)) as u8]] }
         "pairing" => vec![pairing(g1v(&a[0]), g2v(&a[1])).to_slice().to_vec()],
         "fast_pairing" => vec![fast_pairing(g1v(&a[0]), g2v(&a[1])).to_slice().to_vec()],
         "prepared_pairing" => { let p = G2Prepared::from(g2v(&a[1])); let mut out = vec![]; for k in 0..a.len() { if k != 1 { out.push(p.pairing(&g1v(&a[k])).to_slice().to_vec()); } } out }
